@@ -373,7 +373,7 @@ def judge_programs(ctx, runner, cases, srcs, stats):
             report("program %s (entry point %s, options %s): final buffer contents differ between the IR semantics and the emitted MSL\n%s"
                    % (name, c["ep"], c["set"], d),
                    {"input.wgsl": srcs.get(name, ""), "emitted.msl": c["text"], "input.json": json.dumps(c["inp"])},
-                   "%s:%s:%s" % (c["tag"], name, policy_class(c["set"])))
+                   "%s:%s:%s" % (c["tag"], name, mslprogs.P.get(name, {}).get("finding") or policy_class(c["set"])))
         elif len(ctx.cov["samples"]) < 5 and stats["compared"] % 37 == 1:
             ctx.sample({"program": name, "entry": c["ep"], "options": c["set"], "agree_on_buffers": [plan.ir["GlobalVariables"][h]["Name"] for h in plan.storage_handles()]})
 
@@ -474,7 +474,7 @@ def run(ctx):
     fut_ir = pool.submit(ocamlbuild.build, "irrun")
     fut_msl = pool.submit(ocamlbuild.build, "mslrun")
     enums = mslcorr.Enums(tools)
-    workers = max(2, min(8, vcheck.NCPU // 2))
+    workers = max(2, min(12, (vcheck.NCPU * 3) // 4))
     runner = Runner(None, None, workers)
 
     # ---- probes on the boundary pool (search for the failing operator when a tie breaks; re-derives the refuted entries)
@@ -621,11 +621,11 @@ def queue_generated(ctx, tools, enums, runner, srcs):
             cases.append({"name": name, "rejected": str(r.get("err") or r.get("panic") or r.get("crash") or r)[:200], "tag": "gen"})
             continue
         cases += queue_program(ctx, enums, runner, name, r, sets_of[name], ["finite", "pool", "small", "pool"], [3, 1, 4, 2],
-                               ctx.scale(2, 4), "gen")
+                               ctx.scale(3, 4), "gen")
     return cases, {name: ast for name, ast, src in progs}
 
 
-GEN_QUICK = 60
+GEN_QUICK = 200
 GEN_THOROUGH = 700
 
 
